@@ -125,12 +125,25 @@ SQLISH = ['select', 'from', 'where', ' ', ' ', '(', ')', ',', '.', "'", '"', '`'
           'update', 'set', 'delete', 'show', 'describe', 'between', 'like', 'is', 'cast', 'interval', 'latest']
 
 
+PUMP_ALPHABET = ['\\', "'", '"', '`', 'a', '1', ' ', '\n', '.', '-', '*', '/', '(', ')', ',', '@', '$', '{', '#', '_', 'e', '+', 'é']
+PUMP_PREFIX = ['select ', 'select a from t where b = ', '', 'create model m predict p using k = ', 'select a.']
+PUMP_OPEN = ["'", '"', '`', '/*', '--', '#', '', '(', '@', '1', '1.', 'a', '$', '{{', 'x = ']
+PUMP_CLOSE = ['', '', "'", '"', '`', '*/', ')', ' from t', '\n']
+
+
 @st.composite
 def cases(draw, pool='lite'):
     d = draw(st.sampled_from(corpus.DIALECTS))
     gg = grammar.get(d)
     mode = draw(st.sampled_from(['grammar', 'grammar', 'mut-corpus', 'mut-corpus', 'mut-grammar', 'mut-grammar',
-                                 'lexemes', 'sqlish', 'unicode']))
+                                 'lexemes', 'sqlish', 'unicode'] * 2 + ['pump']))
+    if mode == 'pump':
+        # a short fragment repeated many times after an opening lexeme: scanning and parsing time must not explode
+        # (the watchdog in judge() turns a parse that does not come back into a `no-termination` record)
+        frag = ''.join(draw(st.lists(st.sampled_from(PUMP_ALPHABET), min_size=1, max_size=3)))
+        sql = (draw(st.sampled_from(PUMP_PREFIX)) + draw(st.sampled_from(PUMP_OPEN)) + frag * draw(st.integers(30, 70))
+               + draw(st.sampled_from(PUMP_CLOSE)))
+        return {'dialect': d, 'sql': sql, 'origin': mode}
     if mode == 'grammar':
         toks = draw(gg.sentence(pool=pool))
         sql = ' '.join(toks)
@@ -171,7 +184,7 @@ def fuzz_part(col, k, tier, seed):
     try:
         env = dict(os.environ, PYTHONPATH=lib.VERIF + os.pathsep + deps, PYTHONHASHSEED='0')
         cmd = ['/venv/bin/python', '-m', 'vf.fuzz.c02_target', out, str(k % 2), f'-runs={FUZZ_RUNS[tier]}',
-               f'-seed={(seed % 2 ** 31) or 1}', '-max_len=160', '-print_final_stats=0']
+               f'-seed={(seed % 2 ** 31) or 1}', '-max_len=160', '-print_final_stats=0', f'-artifact_prefix={out}/']
         subprocess.run(cmd, cwd=lib.VERIF, env=env, capture_output=True, text=True, timeout=3600)
         st = {}
         if os.path.exists(os.path.join(out, 'stats.json')):
